@@ -188,6 +188,13 @@ def family(tier):
             seed = 0
         k = (seed * 977) % len(fam)
         fam = fam[k:] + fam[:k]
+        # everything the quick tier looks at comes first (thorough dominates quick whatever the budget), then a window
+        # of the larger family that VERIF_SEED moves; VF_THOROUGH_EXTRA widens the window (0 = the whole family)
+        first = rich_family()
+        have = set(s.name for s in first)
+        rest = [s for s in fam if s.name not in have]
+        extra = int(os.environ.get('VF_THOROUGH_EXTRA', '300') or 0)
+        fam = first + (rest[:extra] if extra > 0 else rest)
     return fam
 
 
